@@ -40,6 +40,10 @@ type hsut struct {
 	hash  uint64
 	muts  int
 	pfx   string
+	// quiet: inside an unobserved-operation window. No observing call is made
+	// at all (no Len, no Index(), no Peek): only the mutators run, their own
+	// results are still compared, and the model is verified when the window ends.
+	quiet bool
 }
 
 func newHsut(c *ev.Case) *hsut {
@@ -118,6 +122,9 @@ func (s *hsut) check() bool {
 	c := s.c
 	if c.Failed() {
 		return false
+	}
+	if s.quiet {
+		return true
 	}
 	for _, m := range s.heaps {
 		n := -1
@@ -273,7 +280,11 @@ func (s *hsut) opPush(m *hmodel, key int) bool {
 		c.Failf("push-nil", "%s.Push(%v) returned a nil handle", m.name, e.it())
 		return false
 	}
-	c.Logf("%s.Push(%v) -> handle idx=%d", m.name, e.it(), got.Index())
+	if s.quiet {
+		c.Logf("%s.Push(%v) (unobserved)", m.name, e.it())
+	} else {
+		c.Logf("%s.Push(%v) -> handle idx=%d", m.name, e.it(), got.Index())
+	}
 	if o := s.byPtr[got]; o != nil {
 		c.Failf("handle-identity", "%s.Push(%v) returned the *Element that denotes element %v", m.name, e.it(), o.it())
 		return false
@@ -311,7 +322,11 @@ func (s *hsut) opPushElement(m *hmodel, e *helem, key int) bool {
 	if !guard(c, "PushElement", func() { m.h.PushElement(e.h) }) {
 		return false
 	}
-	c.Logf("%s.PushElement(%v) -> idx=%d", m.name, e.it(), e.h.Index())
+	if s.quiet {
+		c.Logf("%s.PushElement(%v) (unobserved)", m.name, e.it())
+	} else {
+		c.Logf("%s.PushElement(%v) -> idx=%d", m.name, e.it(), e.h.Index())
+	}
 	s.join(m, e)
 	return s.check()
 }
@@ -402,6 +417,22 @@ func (s *hsut) opRemove(m *hmodel, e *helem) bool {
 	c := s.c
 	cl := s.class(m, e)
 	s.note('r', m.no, e.id)
+	if s.quiet {
+		// no Index(), no Len: the call itself is all that happens; that a stale or
+		// foreign handle was ignored is verified against the model after the window
+		if cl == "live" {
+			s.muts++
+		}
+		if !guard(c, "Remove", func() { m.h.Remove(e.h) }) {
+			return false
+		}
+		c.Logf("%s.Remove(%s handle of %v) (unobserved)", m.name, cl, e.it())
+		c.Add(s.pfx+"remove_"+cl, 1)
+		if cl == "live" {
+			s.leave(m, e)
+		}
+		return true
+	}
 	pre, ok := s.index(e)
 	if !ok {
 		return false
@@ -445,6 +476,20 @@ func (s *hsut) opFix(m *hmodel, e *helem, newKey int, change bool) bool {
 	if change {
 		e.key = newKey
 		e.h.Value = e.it()
+	}
+	if s.quiet {
+		if cl == "live" {
+			s.muts++
+		}
+		if !guard(c, "Fix", func() { m.h.Fix(e.h) }) {
+			return false
+		}
+		c.Logf("%s.Fix(%s handle of #%d, key %d -> %d) (unobserved)", m.name, cl, e.id, old, e.key)
+		c.Add(s.pfx+"fix_"+cl, 1)
+		if cl == "foreign" && change {
+			return s.opFix(s.heaps[e.where], e, newKey, false)
+		}
+		return true
 	}
 	pre, ok := s.index(e)
 	if !ok {
